@@ -370,6 +370,60 @@ pub fn run(ctx: &Ctx) {
         }
     }
 
+    // ---- A2b: alias equivalence (metamorphic): in every accepted sequence of length <= 5 that contains `==`, replacing any
+    // non-empty subset of its occurrences by `=` must give the same tree (exhaustive); likewise contains <-> in with swapped
+    // operands is covered by the renderings of part B.
+    {
+        let mut with_eq: Vec<Vec<Tok>> = (0..count_upto(n, 4))
+            .into_par_iter()
+            .filter_map(|i| {
+                let toks = seq_from_index(i, &alpha, 4);
+                if toks.contains(&Tok::Fix("==")) && syntax_outcome(&toks).is_ok() {
+                    Some(toks)
+                } else {
+                    None
+                }
+            })
+            .collect();
+        with_eq.extend(
+            accepted_pool
+                .iter()
+                .filter(|p| p.len() == 5)
+                .map(|p| p.iter().map(|&k| alpha[k as usize].clone()).collect::<Vec<_>>())
+                .filter(|t| t.contains(&Tok::Fix("=="))),
+        );
+        let mut variants: Vec<(Vec<Tok>, Vec<Tok>)> = vec![];
+        for toks in &with_eq {
+            let pos: Vec<usize> = toks.iter().enumerate().filter(|(_, t)| **t == Tok::Fix("==")).map(|(i, _)| i).collect();
+            for mask in 1u32..(1 << pos.len()) {
+                let mut v = toks.clone();
+                for (b, p) in pos.iter().enumerate() {
+                    if mask & (1 << b) != 0 {
+                        v[*p] = Tok::Fix("=");
+                    }
+                }
+                variants.push((toks.clone(), v));
+            }
+        }
+        ctx.enumerate(
+            "alias-equivalence",
+            variants.len() as u64,
+            true,
+            |i, acc| {
+                let (orig, alias) = &variants[i as usize];
+                acc.cell("alias:==/=", true);
+                if i % 499 == 0 {
+                    acc.sample("alias", || text_of(alias));
+                }
+                // the alias spelling must derive the tree of the original spelling
+                check_text_against(&text_of(alias), parse_tokens(orig))
+                    .map_err(|i| Issue::new(i.sig.replace("grammar:", "alias:"), i.msg))
+            },
+            |i| toks_to_json(&variants[i as usize].1),
+            "tokens",
+        );
+    }
+
     // ---- A3: class expansion of accepted sequences
     let mut accepted: Vec<Vec<Tok>> = (0..count_upto(n, 4))
         .into_par_iter()
